@@ -401,12 +401,18 @@ def rule_tokens(F, R, scope):
 
 def rule_operator_tables(F, R, which=('binop', 'countop', 'fixpoint')):
     lib = F.lib()
+    import engine_a as _ea
+    WT = _ea.walked_tables(lib)       # the same tables read from the success paths: decides a row the written-out match does not show
     if 'binop' in which:
         t = lib.ithir.get(PARSER + 'parse_binary_operator')
         tab = match_token_table(t, 'rsbdd::parser::BinaryOperator') if t else {}
+        wt = WT['binop'] or {}
+        for tok_ in wt:
+            if tok_ not in REF_BINOP and tok_ not in tab: tab[tok_] = (sorted(wt[tok_]), [tok_])
         for tok, op in sorted(REF_BINOP.items()):
             got = tab.get(tok)
             ok = got is not None and got[0] == [op] and got[1] in ([tok], [])
+            if not ok and wt.get(tok) == {op} and '?' not in wt: ok = True; got = ([op], [tok])
             R.count('T:binary-operator-rows'); R.obligation(ok, 'T binop ' + tok)
             if not ok:
                 R.violation('rsbdd::parser::SymbolicBDD::parse_binary_operator / T / %s' % tok, 'T',
@@ -441,9 +447,13 @@ def rule_operator_tables(F, R, which=('binop', 'countop', 'fixpoint')):
     if 'countop' in which:
         t = lib.ithir.get(PARSER + 'parse_countable_formula')
         tab = match_token_table(t, 'rsbdd::parser::CountableOperator') if t else {}
+        wt = WT['countop'] or {}
+        for tok_ in wt:
+            if tok_ not in REF_COUNTOP and tok_ not in tab: tab[tok_] = (sorted(wt[tok_]), [tok_])
         for tok, op in sorted(REF_COUNTOP.items()):
             got = tab.get(tok)
             ok = got is not None and got[0] == [op]
+            if not ok and wt.get(tok) == {op} and '?' not in wt: ok = True; got = ([op], [tok])
             R.count('T:counting-operator-rows'); R.obligation(ok, 'T countop ' + tok)
             if not ok:
                 R.violation('rsbdd::parser::SymbolicBDD::parse_countable_formula / T / %s' % tok, 'T',
@@ -454,8 +464,10 @@ def rule_operator_tables(F, R, which=('binop', 'countop', 'fixpoint')):
             R.violation('rsbdd::parser::SymbolicBDD::parse_countable_formula / T / extra %s' % tok, 'T', 'token %s is accepted as a counting operator' % tok)
     if 'fixpoint' in which:
         fp = fixed_point_dispatch(lib)
+        wt = WT['fixpoint'] or {}
         for tok, init in sorted(REF_FIXPOINT.items()):
             got = fp.get(tok)
+            if got != init and wt.get(tok) == {init} and '?' not in wt: got = init
             R.count('T:fixed-point-rows'); R.obligation(got == init, 'T fp ' + tok)
             if got != init:
                 R.violation('rsbdd::parser::SymbolicBDD::parse_simple_sub_formula / T / %s' % tok, 'T',
